@@ -13,6 +13,13 @@ Arguments String.eqb : simpl nomatch.
 
 Notation len := (@List.length token).
 
+(* expose the kind / text / line bit of canonical tokens *)
+Ltac lenlia := repeat (rewrite app_length in * || (progress cbn [List.length pr_dt app] in * )); lia.
+(* evaluate the lookahead tests on a concrete head token *)
+Ltac pk := cbn [peek_in peek_is peek_text existsb is is_text tk tx tnl tP tI tIn tPn kind_eqb orb andb
+                String.eqb Ascii.eqb Bool.eqb].
+Ltac tok := unfold set_nl, tI, tP, tIn, tPn, is, is_text; cbn [tk tx tnl kind_eqb orb andb negb].
+
 (* ---------------------------------------------------------------- the generic loop *)
 
 Lemma many_ok {A} (p : P A) (pr : A -> list token) (stop follow : list token -> bool)
@@ -73,4 +80,869 @@ Proof.
   - reflexivity.
   - cbn [List.length] in H. lia.
   - lia.
+Qed.
+
+(* ---------------------------------------------------------------- data types *)
+
+Definition pr_names (more : list string) : list token :=
+  flat_map (fun x => [tP KComma ","; tI x]) more.
+
+Lemma p_names_ok : forall more r fuel,
+  forallb wf_name more = true -> peek_is KComma r = false ->
+  len (pr_names more ++ r) < fuel ->
+  p_names fuel (pr_names more ++ r) = Some (more, r).
+Proof.
+  induction more as [|x more IH]; intros r fuel Hwf Hr Hlen.
+  - cbn [pr_names flat_map app] in *. destruct fuel as [|f]; [lia|]. cbn [p_names].
+    destruct r as [|c [|n r']]; try reflexivity.
+    + cbn in Hr. unfold is in Hr. unfold is. rewrite Hr. reflexivity.
+    + cbn in Hr. unfold is in Hr. unfold is. rewrite Hr. reflexivity.
+  - cbn [pr_names flat_map app] in *. cbn [forallb] in Hwf. apply andb_true_iff in Hwf as [Hx Hm].
+    destruct fuel as [|f]; [lia|]. cbn [p_names app].
+    cbn [is tk tP tI kind_eqb tx andb]. unfold wf_name in Hx. rewrite Hx. cbn [andb].
+    fold (pr_names more). rewrite IH; auto. cbn [List.length] in Hlen. fold (pr_names more) in Hlen. lia.
+Qed.
+
+(* first token of a printed data type *)
+Lemma pr_dt_head : forall d, exists t q, pr_dt d = t :: q /\ tnl t = false /\
+  (tk t = KIdent \/ tk t = KLBrack \/ tk t = KAny \/ tk t = KMul \/ tk t = KLBrace).
+Proof.
+  destruct d; cbn [pr_dt app]; eexists; eexists; (split; [reflexivity|]); cbn; auto 6.
+Qed.
+
+Lemma pr_dt_head_nostruct : forall d, not_struct d = true -> exists t q, pr_dt d = t :: q /\
+  (tk t = KIdent \/ tk t = KLBrack \/ tk t = KAny \/ tk t = KMul).
+Proof.
+  destruct d; cbn [pr_dt app not_struct]; intros H; try discriminate;
+    eexists; eexists; (split; [reflexivity|]); cbn; auto 6.
+Qed.
+
+Fixpoint dsize (d : dtype) : nat :=
+  match d with
+  | DStruct es => S (fold_right (fun e n => let '(_, d', _) := e in dsize d' + n) 0 es)
+  | DArray _ d' | DSlice d' | DPtr d' => S (dsize d')
+  | DMap k v => S (dsize k + dsize v)
+  | _ => 1
+  end.
+
+Lemma dsize_in : forall es names d' tag, In (names, d', tag) es -> dsize d' < dsize (DStruct es).
+Proof.
+  induction es as [|[[n d] t] es IH]; intros names d' tag Hin; [destruct Hin|].
+  cbn [dsize fold_right]. destruct Hin as [E|Hin].
+  - inversion E; subst. lia.
+  - specialize (IH _ _ _ Hin). cbn [dsize] in IH. lia.
+Qed.
+
+(* continuation of a struct member: the next token is an identifier / '*' / '}' that starts a
+   new line *)
+Definition elem_next (r : list token) : Prop :=
+  exists t q, r = t :: q /\ tnl t = true /\ (tk t = KIdent \/ tk t = KMul \/ tk t = KRBrace).
+
+Lemma elem_next_facts : forall r, elem_next r ->
+  follow_elem r = true /\ peek_in [KRaw; KMul; KIdent; KRBrace] r = true /\ peek_is KRaw r = false /\
+  stop_rbrace r = stop_rbrace r.
+Proof.
+  intros r (t & q & -> & _ & Hk). unfold follow_elem, peek_in, peek_is, is. cbn [existsb].
+  destruct Hk as [E|[E|E]]; rewrite E; cbn; auto.
+Qed.
+
+Lemma elem_finish_notag : forall names d r, elem_next r ->
+  elem_finish names d r = Some ((names, d, None), r).
+Proof.
+  intros names d r H. destruct (elem_next_facts r H) as (_ & H2 & H3 & _).
+  unfold elem_finish. rewrite H2. destruct H as (t & q & -> & _ & _).
+  unfold peek_is in H3. rewrite H3. reflexivity.
+Qed.
+
+Lemma elem_finish_tag : forall names d s r,
+  elem_finish names d (tP KRaw s :: r) = Some ((names, d, Some s), r).
+Proof. reflexivity. Qed.
+
+Lemma first_nl_cons : forall t q, first_nl (t :: q) = set_nl true t :: q.
+Proof. reflexivity. Qed.
+
+(* one struct member, given the parser for its type *)
+Lemma elem_ok : forall f (e : elem) r,
+  (let '(names, d, tag) := e in
+   forallb wf_name names && wf_dt d && match names with [] => embeddable d | _ => true end) = true ->
+  elem_next r ->
+  len (pr_elem e ++ r) < f ->
+  (forall rr, len (pr_dt (snd (fst e)) ++ rr) < f ->
+              p_dt f (pr_dt (snd (fst e)) ++ rr) = Some (snd (fst e), rr)) ->
+  p_elem_with (p_dt f) (p_names f) (pr_elem e ++ r) = Some (e, r).
+Proof.
+  intros f [[names d] tag] r Hwf Hr Hlen Hd. cbn [fst snd] in Hd.
+  apply andb_true_iff in Hwf as [Hwf Hemb]. apply andb_true_iff in Hwf as [Hn Hwd].
+  destruct names as [|n more].
+  - (* embedded field *)
+    unfold pr_elem. cbn [app].
+    assert (Hfin : forall dd rest', (match tag with Some s => [tP KRaw s] | None => [] end) ++ r = rest' ->
+                   elem_finish [] dd rest' = Some (([], dd, tag), r)).
+    { intros dd rest' <-. destruct tag as [s|]; cbn [app].
+      - apply elem_finish_tag.
+      - apply elem_finish_notag; exact Hr. }
+    destruct d as [s| | | | | | |d']; cbn [embeddable] in Hemb; try discriminate.
+    + (* Base *)
+      cbn [pr_dt first_nl app]. unfold p_elem_with. tok.
+      cbn [wf_dt] in Hwd. unfold wf_base in Hwd.
+      apply andb_true_iff in Hwd as [Hwd Hmap]. apply andb_true_iff in Hwd as [Hkw Hany].
+      apply negb_true_iff in Hkw, Hany. rewrite Hkw.
+      assert (Hb : base_or_any s = DBase s) by (unfold base_or_any; rewrite Hany; reflexivity).
+      destruct tag as [tg|]; cbn [app].
+      * tok. rewrite Hb. apply elem_finish_tag.
+      * destruct Hr as (t & q & -> & Hnl & Hk). rewrite Hnl. cbn [orb]. rewrite Hb.
+        apply elem_finish_notag. exists t, q. auto.
+    + (* any *)
+      cbn [pr_dt first_nl app]. unfold p_elem_with. tok.
+      change (is_keyword "any") with false. cbn iota.
+      change (base_or_any "any") with DAny.
+      destruct tag as [tg|]; cbn [app].
+      * tok. apply elem_finish_tag.
+      * destruct Hr as (t & q & -> & Hnl & Hk). rewrite Hnl. cbn [orb].
+        apply elem_finish_notag. exists t, q. auto.
+    + (* pointer to a named type *)
+      destruct d' as [s| | | | | | |]; try discriminate.
+      * cbn [pr_dt first_nl app]. unfold p_elem_with. tok.
+        cbn [wf_dt not_struct andb] in Hwd. unfold wf_base in Hwd.
+        apply andb_true_iff in Hwd as [Hwd Hmap]. apply andb_true_iff in Hwd as [Hkw Hany].
+        apply negb_true_iff in Hany.
+        assert (Hb : base_or_any s = DBase s) by (unfold base_or_any; rewrite Hany; reflexivity).
+        rewrite Hb. apply Hfin. reflexivity.
+      * cbn [pr_dt first_nl app]. unfold p_elem_with. tok.
+        change (base_or_any "any") with DAny. apply Hfin. reflexivity.
+  - (* named field *)
+    unfold pr_elem. cbn [first_nl app]. fold (pr_names more).
+    cbn [forallb] in Hn. apply andb_true_iff in Hn as [Hn1 Hn2]. unfold wf_name in Hn1.
+    apply negb_true_iff in Hn1.
+    rewrite <- !app_assoc.
+    assert (Htail : exists tl, tl = (match tag with Some s => [tP KRaw s] | None => [] end) ++ r /\
+                    forall nn, elem_finish nn d tl = Some ((nn, d, tag), r)).
+    { eexists; split; [reflexivity|]. intros nn. destruct tag as [s|]; cbn [app].
+      - apply elem_finish_tag.
+      - apply elem_finish_notag; exact Hr. }
+    destruct Htail as (tl & Etl & Hfin). rewrite <- Etl.
+    assert (Hl1 : len (pr_names more ++ pr_dt d ++ tl) < f).
+    { unfold pr_elem in Hlen. cbn [first_nl app] in Hlen. fold (pr_names more) in Hlen.
+      rewrite <- !app_assoc in Hlen. rewrite <- Etl in Hlen. cbn [List.length] in *. lia. }
+    clear Etl Hlen.
+    destruct (pr_dt_head d) as (t & q & Ed & Hnl & Hk).
+    (* the token after the first name *)
+    assert (Hnext : exists t2 q2, pr_names more ++ pr_dt d ++ tl = t2 :: q2
+              /\ tnl t2 = false /\ is KRaw t2 = false
+              /\ peek_in [KComma; KIdent; KLBrack; KAny; KMul; KLBrace] (t2 :: q2) = true).
+    { destruct more as [|m more'].
+      - cbn [pr_names flat_map app]. rewrite Ed. cbn [app]. eexists; eexists; split; [reflexivity|].
+        split; [exact Hnl|]. unfold is, peek_in, peek_is, is. cbn [existsb].
+        destruct Hk as [E|[E|[E|[E|E]]]]; rewrite E; cbn; auto.
+      - cbn [pr_names flat_map app]. eexists; eexists; split; [reflexivity|]. cbn. auto. }
+    destruct Hnext as (t2 & q2 & E2 & Hnl2 & Hraw2 & Hpk).
+    unfold p_elem_with. rewrite E2.
+    replace (is KMul (set_nl true (tI n))) with false by reflexivity.
+    replace (is KIdent (set_nl true (tI n))) with true by reflexivity.
+    replace (tx (set_nl true (tI n))) with n by reflexivity.
+    rewrite Hn1, Hnl2, Hraw2. cbn [orb]. rewrite Hpk. rewrite <- E2.
+    rewrite p_names_ok; auto.
+    + rewrite Hd.
+      * apply Hfin.
+      * rewrite !app_length in *. lia.
+    + rewrite Ed. cbn [app peek_is]. unfold is.
+      destruct Hk as [E|[E|[E|[E|E]]]]; rewrite E; reflexivity.
+Qed.
+
+
+Lemma pr_elem_shape : forall (e : elem),
+  (let '(names, d, tag) := e in match names with [] => embeddable d | _ => true end) = true ->
+  exists t q, pr_elem e = t :: q /\ tnl t = true /\ (tk t = KIdent \/ tk t = KMul).
+Proof.
+  intros [[names d] tag] H. unfold pr_elem. destruct names as [|n more].
+  - destruct d as [s| | | | | | |d']; cbn [embeddable] in H; try discriminate;
+      cbn [pr_dt first_nl app]; eexists; eexists; (split; [reflexivity|]); cbn; auto.
+  - cbn [first_nl app]. eexists; eexists; (split; [reflexivity|]); cbn; auto.
+Qed.
+
+Lemma dt_ok : forall n d, dsize d <= n -> wf_dt d = true ->
+  forall rest fuel, len (pr_dt d ++ rest) < fuel -> p_dt fuel (pr_dt d ++ rest) = Some (d, rest).
+Proof.
+  induction n as [|n IH]; intros d Hs Hwf rest fuel Hlen.
+  { destruct d; cbn [dsize] in Hs; lia. }
+  destruct fuel as [|f]; [lia|].
+  destruct d as [s| | |es|al d'|d'|k v|d'].
+  - (* base *)
+    cbn [pr_dt app p_dt]. tok.
+    cbn [wf_dt] in Hwf. unfold wf_base in Hwf.
+    apply andb_true_iff in Hwf as [Hwf Hmap]. apply andb_true_iff in Hwf as [Hkw Hany].
+    apply negb_true_iff in Hkw, Hany, Hmap. rewrite Hany, Hmap, Hkw. reflexivity.
+  - reflexivity.
+  - reflexivity.
+  - (* struct *)
+    cbn [pr_dt app p_dt].
+    change (flat_map _ es) with (flat_map pr_elem es).
+    replace (is KIdent (tP KLBrace "{")) with false by reflexivity.
+    replace (is KLBrace (tP KLBrace "{")) with true by reflexivity.
+    cbn iota.
+    rewrite <- app_assoc. cbn [app].
+    destruct es as [|e0 es0] eqn:Ees.
+    { cbn [flat_map app]. destruct f as [|f']; [cbn in Hlen; lia|]. reflexivity. }
+    rewrite <- Ees in *.
+    set (rb := T KRBrace "}" true :: rest).
+    assert (Hall : forall e, In e es ->
+               (let '(names, d, tag) := e in
+                forallb wf_name names && wf_dt d && match names with [] => embeddable d | _ => true end) = true).
+    { cbn [wf_dt] in Hwf. rewrite forallb_forall in Hwf. exact Hwf. }
+    assert (Hshape : forall e r, In e es -> elem_next (pr_elem e ++ r)).
+    { intros e r Hin. destruct (pr_elem_shape e) as (t & q & E & Hnl & Hk).
+      - specialize (Hall e Hin). destruct e as [[nm dd] tg]. apply andb_true_iff in Hall as [_ H]. exact H.
+      - rewrite E. cbn [app]. exists t, (q ++ r). split; [reflexivity|]. split; [exact Hnl|].
+        destruct Hk; auto. }
+    assert (Hrb : elem_next rb).
+    { subst rb. eexists; eexists; split; [reflexivity|]. cbn. auto. }
+    assert (Hpk : peek_in [KIdent; KMul; KRBrace] (flat_map pr_elem es ++ rb) = true).
+    { rewrite Ees. cbn [flat_map]. rewrite <- app_assoc.
+      destruct (Hshape e0 (flat_map pr_elem es0 ++ rb)) as (t & q & E & _ & Hk).
+      { rewrite Ees. left; reflexivity. }
+      rewrite E. unfold peek_in, peek_is, is. cbn [existsb].
+      destruct Hk as [K|[K|K]]; rewrite K; reflexivity. }
+    replace (match es with [] => false | _ :: _ => true end) with true by (rewrite Ees; reflexivity).
+    fold rb. rewrite Hpk.
+    cbn [pr_dt app] in Hlen.
+    change (flat_map _ es) with (flat_map pr_elem es) in Hlen.
+    rewrite <- app_assoc in Hlen. cbn [app List.length] in Hlen.
+    replace (match es with [] => false | _ :: _ => true end) with true in Hlen by (rewrite Ees; reflexivity).
+    fold rb in Hlen.
+    rewrite (many_ok (p_elem_with (p_dt f) (p_names f)) pr_elem stop_rbrace follow_elem elem_next es rb
+               (len (flat_map pr_elem es ++ rb))).
+    + subst rb. reflexivity.
+    + intros e r Hin Hr HN.
+      destruct (pr_elem_shape e) as (t & q & E & Hnl & Hk).
+      { specialize (Hall e Hin). destruct e as [[nm dd] tg]. apply andb_true_iff in Hall as [_ H]. exact H. }
+      split; [rewrite E; discriminate|].
+      split.
+      { rewrite E. cbn [app]. unfold stop_rbrace, peek_is, is. destruct Hk as [K|K]; rewrite K; reflexivity. }
+      split.
+      { apply elem_ok; auto.
+        - lia.
+        - intros rr Hrr. apply IH; auto.
+          + destruct e as [[nm dd] tg]. cbn [fst snd]. pose proof (dsize_in es nm dd tg Hin). lia.
+          + specialize (Hall e Hin). destruct e as [[nm dd] tg]. cbn [fst snd].
+            apply andb_true_iff in Hall as [H _]. apply andb_true_iff in H as [_ H]. exact H. }
+      { apply (elem_next_facts r Hr). }
+    + exact Hshape.
+    + exact Hrb.
+    + reflexivity.
+    + lia.
+    + lia.
+  - (* array *)
+    cbn [wf_dt dsize] in *. cbn [pr_dt app p_dt].
+    destruct al as [s|]; tok; cbn [expect]; tok.
+    + rewrite (IH d'); auto; [lia|lenlia].
+    + rewrite (IH d'); auto; [lia|lenlia].
+  - (* slice *)
+    cbn [wf_dt dsize] in *. cbn [pr_dt app p_dt]. tok.
+    rewrite (IH d'); auto; [lia|lenlia].
+  - (* map *)
+    cbn [wf_dt dsize] in *. apply andb_true_iff in Hwf as [Hk Hv].
+    cbn [pr_dt app p_dt]. tok.
+    change (String.eqb "map" "any") with false. change (String.eqb "map" "map") with true. cbn iota.
+    cbn [expect]. tok.
+    rewrite <- !app_assoc. cbn [app].
+    rewrite (IH k); auto; [|lia|lenlia].
+    cbn [expect]. tok.
+    rewrite (IH v); auto; [lia|lenlia].
+  - (* pointer *)
+    cbn [wf_dt dsize] in *. apply andb_true_iff in Hwf as [Hns Hw].
+    cbn [pr_dt p_dt]. tok.
+    destruct (pr_dt_head_nostruct d' Hns) as (t & q & E & Hk).
+    assert (Hp : peek_in [KIdent; KLBrack; KAny; KMul] (pr_dt d' ++ rest) = true).
+    { rewrite E. cbn [app]. unfold peek_in, peek_is, is. cbn [existsb].
+      destruct Hk as [K|[K|[K|K]]]; rewrite K; reflexivity. }
+    cbn [app]. rewrite Hp. rewrite (IH d'); auto; [lia|]. clear E Hp. lenlia.
+Qed.
+
+Lemma dt_ok' : forall d, wf_dt d = true ->
+  forall rest fuel, len (pr_dt d ++ rest) < fuel -> p_dt fuel (pr_dt d ++ rest) = Some (d, rest).
+Proof. intros d H. apply (dt_ok (dsize d) d (le_n _) H). Qed.
+
+Lemma texpr_ok : forall e rest fuel, wf_texpr e = true ->
+  len (pr_texpr e ++ rest) < fuel -> p_texpr fuel (pr_texpr e ++ rest) = Some (e, rest).
+Proof.
+  intros [[n asg] d] rest fuel Hwf Hlen. unfold wf_texpr in Hwf. apply andb_true_iff in Hwf as [Hn Hd].
+  unfold wf_name in Hn. unfold pr_texpr in *. cbn [app]. unfold p_texpr.
+  replace (is KIdent (tI n)) with true by reflexivity. replace (tx (tI n)) with n by reflexivity.
+  rewrite Hn. cbn [andb].
+  destruct asg; cbn [app].
+  - replace (is KAssign (tP KAssign "=")) with true by reflexivity.
+    rewrite dt_ok'; auto. lenlia.
+  - destruct (pr_dt_head d) as (t & q & E & _ & Hk). rewrite E. cbn [app].
+    replace (is KAssign t) with false by (unfold is; destruct Hk as [K|[K|[K|[K|K]]]]; rewrite K; reflexivity).
+    change (t :: q ++ rest) with ((t :: q) ++ rest). rewrite <- E.
+    rewrite dt_ok'; auto. clear E. lenlia.
+Qed.
+
+(* ---------------------------------------------------------------- routes *)
+
+Definition pr_ptail (l : list (psep * string)) : list token :=
+  flat_map (fun e : psep * string =>
+              match fst e with SepSub => [tP KSub "-"; tI (snd e)] | SepNone => [tI (snd e)] end) l.
+
+(* what may follow a path: '/' (next segment) or a token of the stop set *)
+Definition path_next (r : list token) : Prop := peek_is KQuo r = true \/ route_stop r = true.
+
+Lemma ptail_ok : forall l r fuel,
+  forallb (fun e : psep * string => match fst e with SepSub => true | SepNone => false end) l = true ->
+  path_next r -> len (pr_ptail l ++ r) < fuel ->
+  p_ptail fuel (pr_ptail l ++ r) = Some (l, r).
+Proof.
+  induction l as [|[sep x] l IH]; intros r fuel Hwf Hr Hlen.
+  - cbn [pr_ptail flat_map app] in *. destruct fuel as [|f]; [lia|]. cbn [p_ptail].
+    destruct r as [|t q]; [reflexivity|].
+    destruct Hr as [H|H].
+    + cbn [peek_is] in H. rewrite H. reflexivity.
+    + rewrite H. rewrite orb_true_r. reflexivity.
+  - cbn [forallb fst] in Hwf. destruct sep; [|discriminate].
+    cbn [pr_ptail flat_map app fst snd] in *. fold (pr_ptail l) in *.
+    destruct fuel as [|f]; [lia|]. cbn [p_ptail].
+    replace (is KQuo (tP KSub "-")) with false by reflexivity.
+    replace (route_stop (tP KSub "-" :: tI x :: pr_ptail l ++ r)) with false by reflexivity.
+    cbn [orb]. replace (is KSub (tP KSub "-")) with true by reflexivity.
+    replace (is KIdent (tI x)) with true by reflexivity. replace (tx (tI x)) with x by reflexivity.
+    rewrite IH; auto. cbn [List.length] in *. lia.
+Qed.
+
+Definition path_toks (segs : list pseg) (trail : bool) : list token :=
+  flat_map pr_pseg segs ++ (if trail then [tP KQuo "/"] else []).
+
+Lemma pr_pseg_eq : forall s, pr_pseg s =
+  tP KQuo "/" :: (if ps_colon s then [tP KColon ":"] else []) ++
+  match ps_head s with PId x => tI x | PInt x => tP KInt x end :: pr_ptail (ps_tail s).
+Proof. reflexivity. Qed.
+
+Lemma psegs_ok : forall segs trail rest fuel,
+  forallb wf_pseg segs = true -> route_stop rest = true ->
+  len (path_toks segs trail ++ rest) < fuel ->
+  p_psegs fuel (path_toks segs trail ++ rest) = Some (segs, trail, rest).
+Proof.
+  induction segs as [|s segs IH]; intros trail rest fuel Hwf Hrest Hlen.
+  - unfold path_toks in *. cbn [flat_map app] in *. destruct fuel as [|f]; [lia|].
+    destruct trail; cbn [app p_psegs].
+    + replace (route_stop (tP KQuo "/" :: rest)) with false by reflexivity.
+      replace (is KQuo (tP KQuo "/")) with true by reflexivity. rewrite Hrest. reflexivity.
+    + rewrite Hrest. reflexivity.
+  - cbn [forallb] in Hwf. apply andb_true_iff in Hwf as [Hs Hsegs].
+    unfold wf_pseg in Hs. apply andb_true_iff in Hs as [Hhead Htail].
+    unfold path_toks in *. cbn [flat_map] in *. rewrite <- !app_assoc in *.
+    rewrite pr_pseg_eq in *. cbn [app] in *. rewrite <- !app_assoc in *.
+    set (R := flat_map pr_pseg segs ++ (if trail then [tP KQuo "/"] else []) ++ rest) in *.
+    assert (HR : path_next R).
+    { subst R. destruct segs as [|s' segs'].
+      - cbn [flat_map app]. destruct trail; cbn [app]; [left; reflexivity|right; exact Hrest].
+      - cbn [flat_map]. rewrite pr_pseg_eq. left. reflexivity. }
+    destruct fuel as [|f]; [lia|]. cbn [p_psegs].
+    replace (route_stop (tP KQuo "/" :: _)) with false by reflexivity.
+    replace (is KQuo (tP KQuo "/")) with true by reflexivity.
+    unfold not_returns in Hhead. apply negb_true_iff in Hhead.
+    destruct s as [col hd tl]. cbn [ps_colon ps_head ps_tail] in *.
+    assert (Hlt : len (pr_ptail tl ++ R) < f).
+    { destruct col; cbn [app List.length] in Hlen; lia. }
+    assert (Hstop : forall q, route_stop (match hd with PId x => tI x | PInt x => tP KInt x end :: q) = false).
+    { intros q. destruct hd as [x|x]; unfold route_stop, peek_is, peek_text, is, is_text; cbn [tk tx tI tP kind_eqb orb];
+        rewrite Hhead; reflexivity. }
+    destruct col; cbn [app].
+    + replace (route_stop (tP KColon ":" :: _)) with false by reflexivity.
+      replace (peek_in [KColon; KIdent; KInt] (tP KColon ":" :: _)) with true by reflexivity.
+      replace (is KColon (tP KColon ":")) with true by reflexivity.
+      destruct hd as [x|x].
+      * replace (is KIdent (tI x)) with true by reflexivity. cbn [orb].
+        rewrite ptail_ok; auto.
+        assert (Hc : peek_is KQuo R || route_stop R = true) by (destruct HR as [H|H]; rewrite H; auto using orb_true_r).
+        rewrite Hc. subst R. rewrite app_assoc. rewrite IH; auto.
+        clear Hc HR Hlen. lenlia.
+      * replace (is KIdent (tP KInt x)) with false by reflexivity.
+        replace (is KInt (tP KInt x)) with true by reflexivity. cbn [orb].
+        rewrite ptail_ok; auto.
+        assert (Hc : peek_is KQuo R || route_stop R = true) by (destruct HR as [H|H]; rewrite H; auto using orb_true_r).
+        rewrite Hc. subst R. rewrite app_assoc. rewrite IH; auto.
+        clear Hc HR Hlen. lenlia.
+    + rewrite Hstop.
+      destruct hd as [x|x].
+      * replace (peek_in [KColon; KIdent; KInt] (tI x :: _)) with true by reflexivity.
+        replace (is KColon (tI x)) with false by reflexivity.
+        replace (is KIdent (tI x)) with true by reflexivity. cbn [orb].
+        rewrite ptail_ok; auto.
+        assert (Hc : peek_is KQuo R || route_stop R = true) by (destruct HR as [H|H]; rewrite H; auto using orb_true_r).
+        rewrite Hc. subst R. rewrite app_assoc. rewrite IH; auto.
+        clear Hc HR Hlen. lenlia.
+      * replace (peek_in [KColon; KIdent; KInt] (tP KInt x :: _)) with true by reflexivity.
+        replace (is KColon (tP KInt x)) with false by reflexivity.
+        replace (is KIdent (tP KInt x)) with false by reflexivity.
+        replace (is KInt (tP KInt x)) with true by reflexivity. cbn [orb].
+        rewrite ptail_ok; auto.
+        assert (Hc : peek_is KQuo R || route_stop R = true) by (destruct HR as [H|H]; rewrite H; auto using orb_true_r).
+        rewrite Hc. subst R. rewrite app_assoc. rewrite IH; auto.
+        clear Hc HR Hlen. lenlia.
+Qed.
+
+Lemma body_ok : forall b rest, p_body (pr_body b ++ rest) = Some (b, rest).
+Proof. intros [[[|] [|] v]|] rest; reflexivity. Qed.
+
+Lemma pr_body_head : forall b, exists q, pr_body b = tP KLParen "(" :: q.
+Proof. intros [x|]; cbn [pr_body]; eexists; reflexivity. Qed.
+
+(* what follows a service item in printed text: the next item or the closing brace *)
+Definition item_next (r : list token) : Prop :=
+  exists q, r = tPn KAtDoc "@doc" :: q \/ r = tPn KAtHandler "@handler" :: q \/ r = tPn KRBrace "}" :: q.
+
+Lemma item_next_facts : forall r, item_next r ->
+  route_stop r = true /\ peek_in [KAtDoc; KAtHandler; KRBrace] r = true /\
+  peek_text "returns" r = false /\ peek_is KLParen r = false /\
+  peek_is KSemi r = false /\ skip_semi r = r /\ follow_item r = true /\
+  peek_in [KAtDoc; KAtHandler; KRBrace; KSemi] r = true.
+Proof. intros r [q [H|[H|H]]]; subst r; repeat split; reflexivity. Qed.
+
+Lemma route_ok : forall r rest fuel, wf_route r = true -> item_next rest ->
+  len (pr_route r ++ rest) < fuel -> p_route fuel (pr_route r ++ rest) = Some (r, rest).
+Proof.
+  intros [m [segs trail] rq rs] rest fuel Hwf Hrest Hlen.
+  unfold wf_route in Hwf. cbn [r_method r_path] in Hwf. apply andb_true_iff in Hwf as [Hm Hp].
+  unfold wf_path in Hp. cbn [p_segs p_trail] in Hp. apply andb_true_iff in Hp as [Hsegs Hne].
+  destruct (item_next_facts rest Hrest) as (Hst & Hin3 & Hnr & Hlp & Hsemi & Hskip & _ & Hin4).
+  unfold pr_route in *. cbn [r_method r_path r_req r_resp] in *.
+  unfold pr_path in *. cbn [p_segs p_trail] in *. fold (path_toks segs trail) in *.
+  cbn [app] in *. rewrite <- !app_assoc in *.
+  unfold p_route.
+  replace (is KIdent (tIn m)) with true by reflexivity. replace (tx (tIn m)) with m by reflexivity.
+  rewrite Hm. cbn [andb].
+  set (R := match rq with Some b => pr_body b | None => [] end ++
+            match rs with Some b => tI "returns" :: pr_body b | None => [] end ++ rest) in *.
+  assert (HRstop : route_stop R = true).
+  { subst R. destruct rq as [b|].
+    - destruct (pr_body_head b) as (q & E). rewrite E. reflexivity.
+    - cbn [app]. destruct rs as [b|]; [reflexivity|exact Hst]. }
+  unfold p_path.
+  assert (Hns : route_stop (path_toks segs trail ++ R) = false).
+  { unfold path_toks. destruct segs as [|s segs'].
+    - cbn [flat_map app]. cbn in Hne. rewrite Hne. reflexivity.
+    - cbn [flat_map]. rewrite pr_pseg_eq. reflexivity. }
+  rewrite Hns. rewrite psegs_ok; auto; [|cbn [List.length] in Hlen; lia].
+  subst R.
+  destruct rq as [bq|]; destruct rs as [bs|]; cbn [app].
+  - (* request and response *)
+    destruct (pr_body_head bq) as (q & E).
+    assert (E1 : forall X, pr_body bq ++ X = tP KLParen "(" :: q ++ X) by (intros; rewrite E; reflexivity).
+    rewrite E1. pk. rewrite <- E1. rewrite body_ok. pk.
+    rewrite body_ok. rewrite Hskip. reflexivity.
+  - (* request only *)
+    destruct (pr_body_head bq) as (q & E).
+    assert (E1 : forall X, pr_body bq ++ X = tP KLParen "(" :: q ++ X) by (intros; rewrite E; reflexivity).
+    rewrite E1. pk. rewrite <- E1. rewrite body_ok.
+    destruct Hrest as [q' [H|[H|H]]]; subst rest; reflexivity.
+  - (* response only *)
+    pk. rewrite body_ok. rewrite Hskip. reflexivity.
+  - (* neither *)
+    rewrite Hin3. reflexivity.
+Qed.
+
+Lemma item_ok : forall i rest fuel, wf_item i = true -> item_next rest ->
+  len (pr_item i ++ rest) < fuel -> p_item fuel (pr_item i ++ rest) = Some (i, rest).
+Proof.
+  intros [doc h ro] rest fuel Hwf Hrest Hlen. unfold wf_item in Hwf. cbn [i_route] in Hwf.
+  unfold pr_item in *. cbn [i_doc i_handler i_route] in *. rewrite <- !app_assoc in *.
+  unfold p_item.
+  destruct doc as [[s|l]|]; cbn [app] in *.
+  - replace (is KAtDoc (tPn KAtDoc "@doc")) with true by reflexivity.
+    replace (peek_is KLParen (tP KStr s :: _)) with false by reflexivity.
+    cbn [expect]. replace (is KStr (tP KStr s)) with true by reflexivity.
+    replace (tx (tP KStr s)) with s by reflexivity.
+    replace (is KAtHandler (tPn KAtHandler "@handler")) with true by reflexivity.
+    replace (is KIdent (tI h)) with true by reflexivity. replace (tx (tI h)) with h by reflexivity.
+    cbn [andb]. rewrite route_ok; auto. cbn [List.length] in *. lia.
+  - replace (is KAtDoc (tPn KAtDoc "@doc")) with true by reflexivity.
+    replace (peek_is KLParen (tP KLParen "(" :: _)) with true by reflexivity.
+    rewrite <- !app_assoc in *. cbn [app] in *.
+    rewrite p_kvgroup_ok; [|cbn [List.length] in *; lia].
+    replace (is KAtHandler (tPn KAtHandler "@handler")) with true by reflexivity.
+    replace (is KIdent (tI h)) with true by reflexivity. replace (tx (tI h)) with h by reflexivity.
+    cbn [andb]. rewrite route_ok; auto. clear Hwf. lenlia.
+  - replace (is KAtDoc (tPn KAtHandler "@handler")) with false by reflexivity.
+    replace (is KAtHandler (tPn KAtHandler "@handler")) with true by reflexivity.
+    replace (is KIdent (tI h)) with true by reflexivity. replace (tx (tI h)) with h by reflexivity.
+    cbn [andb]. rewrite route_ok; auto. cbn [List.length] in *. lia.
+Qed.
+
+(* ---------------------------------------------------------------- @server values *)
+
+Definition pr_seplist (k : kind) (sep : string) (xs : list string) : list token :=
+  flat_map (fun y => [tP k sep; tI y]) xs.
+
+Lemma seplist_ok : forall k sep xs r fuel, is k (tP k sep) = true -> peek_is k r = false ->
+  len (pr_seplist k sep xs ++ r) < fuel ->
+  p_seplist fuel k (pr_seplist k sep xs ++ r) = Some (xs, r).
+Proof.
+  induction xs as [|x xs IH]; intros r fuel Hk Hr Hlen.
+  - cbn [pr_seplist flat_map app] in *. destruct fuel as [|f]; [lia|]. cbn [p_seplist].
+    destruct r as [|c q]; [reflexivity|]. cbn [peek_is] in Hr. rewrite Hr. reflexivity.
+  - cbn [pr_seplist flat_map app] in *. fold (pr_seplist k sep xs) in *.
+    destruct fuel as [|f]; [lia|]. cbn [p_seplist]. rewrite Hk.
+    replace (is KIdent (tI x)) with true by reflexivity. replace (tx (tI x)) with x by reflexivity.
+    rewrite IH; auto. cbn [List.length] in *. lia.
+Qed.
+
+Lemma ssegs_ok : forall segs r fuel, peek_is KQuo r = false -> peek_is KSub r = false ->
+  len (pr_ssegs segs ++ r) < fuel -> p_ssegs fuel (pr_ssegs segs ++ r) = Some (segs, r).
+Proof.
+  induction segs as [|[x y] segs IH]; intros r fuel Hr Hrs Hlen.
+  - cbn [pr_ssegs flat_map app] in *. destruct fuel as [|f]; [lia|]. cbn [p_ssegs].
+    destruct r as [|c q]; [reflexivity|]. cbn [peek_is] in Hr. rewrite Hr. reflexivity.
+  - unfold pr_ssegs in *. cbn [flat_map fst snd] in *. fold (pr_ssegs segs) in *.
+    destruct fuel as [|f]; [lia|].
+    assert (Hnext : forall q, pr_ssegs segs ++ r = q -> (exists t q', q = t :: q' /\ is KSub t = false) \/ q = []).
+    { intros q <-. destruct segs as [|[x' y'] segs'].
+      - cbn [pr_ssegs flat_map app]. destruct r as [|t q']; [right; reflexivity|left].
+        exists t, q'. split; [reflexivity|]. exact Hrs.
+      - left. unfold pr_ssegs. cbn [flat_map app]. eexists; eexists; split; reflexivity. }
+    destruct y as [y|]; cbn [app p_ssegs].
+    + replace (is KQuo (tP KQuo "/")) with true by reflexivity.
+      replace (is KIdent (tI x)) with true by reflexivity.
+      replace (is KSub (tP KSub "-")) with true by reflexivity.
+      replace (is KIdent (tI y)) with true by reflexivity.
+      replace (tx (tI x)) with x by reflexivity. replace (tx (tI y)) with y by reflexivity.
+      fold (pr_ssegs segs). rewrite IH; auto. cbn [app List.length] in Hlen. fold (pr_ssegs segs) in Hlen. lia.
+    + replace (is KQuo (tP KQuo "/")) with true by reflexivity.
+      replace (is KIdent (tI x)) with true by reflexivity.
+      replace (tx (tI x)) with x by reflexivity.
+      fold (pr_ssegs segs).
+      assert (Hl : len (pr_ssegs segs ++ r) < f).
+      { cbn [app List.length] in Hlen. fold (pr_ssegs segs) in Hlen. lia. }
+      destruct (Hnext _ eq_refl) as [(t & q' & E & Hs)|E]; rewrite E.
+      * destruct q' as [|t2 q2]; rewrite Hs; rewrite <- E; rewrite IH; auto.
+      * rewrite <- E. rewrite IH; auto.
+Qed.
+
+(* what follows an @server / info key-value: the next key or ')' *)
+Definition kv_next (r : list token) : Prop :=
+  exists t q, r = t :: q /\ (tk t = KIdent \/ tk t = KRParen).
+
+Lemma kv_next_facts : forall r, kv_next r ->
+  follow_kv r = true /\ peek_is KComma r = false /\ peek_is KSub r = false /\ peek_is KQuo r = false.
+Proof.
+  intros r (t & q & -> & Hk). unfold follow_kv, peek_in, peek_is, is. cbn [existsb].
+  destruct Hk as [K|K]; rewrite K; repeat split; reflexivity.
+Qed.
+
+Lemma skv_ok : forall (e : skv) r fuel, wf_sval (snd e) = true -> kv_next r ->
+  len (pr_skv e ++ r) < fuel -> p_skv fuel (pr_skv e ++ r) = Some (e, r).
+Proof.
+  intros [k v] r fuel Hwf Hr Hlen. cbn [snd] in Hwf.
+  destruct (kv_next_facts r Hr) as (_ & Hc & Hs & Hq).
+  unfold pr_skv in *. cbn [fst snd app] in *. unfold p_skv.
+  replace (is KIdent (tIn k)) with true by reflexivity.
+  replace (is KColon (tP KColon ":")) with true by reflexivity.
+  replace (tx (tIn k)) with k by reflexivity. cbn [andb].
+  destruct v as [s|s|s|x xs|x xs|x segs]; cbn [pr_sval app] in *.
+  - reflexivity.
+  - reflexivity.
+  - reflexivity.
+  - (* a,b,c *)
+    fold (pr_seplist KComma "," xs) in *.
+    destruct xs as [|y ys]; [discriminate|].
+    replace (is KQuo (tI x)) with false by reflexivity. replace (is KDur (tI x)) with false by reflexivity.
+    replace (is KInt (tI x)) with false by reflexivity. replace (is KStr (tI x)) with false by reflexivity.
+    replace (is KIdent (tI x)) with true by reflexivity. replace (tx (tI x)) with x by reflexivity.
+    replace (peek_is KComma (pr_seplist KComma "," (y :: ys) ++ r)) with true by reflexivity.
+    rewrite seplist_ok; auto. cbn [List.length] in *. lia.
+  - (* a-b-c *)
+    fold (pr_seplist KSub "-" xs) in *.
+    destruct xs as [|y ys]; [discriminate|].
+    replace (is KQuo (tI x)) with false by reflexivity. replace (is KDur (tI x)) with false by reflexivity.
+    replace (is KInt (tI x)) with false by reflexivity. replace (is KStr (tI x)) with false by reflexivity.
+    replace (is KIdent (tI x)) with true by reflexivity. replace (tx (tI x)) with x by reflexivity.
+    replace (peek_is KComma (pr_seplist KSub "-" (y :: ys) ++ r)) with false by reflexivity.
+    replace (peek_is KSub (pr_seplist KSub "-" (y :: ys) ++ r)) with true by reflexivity.
+    rewrite seplist_ok; auto. cbn [List.length] in *. lia.
+  - (* [a] (/b[-c])* *)
+    destruct x as [x|]; cbn [app] in *.
+    + replace (is KQuo (tI x)) with false by reflexivity. replace (is KDur (tI x)) with false by reflexivity.
+      replace (is KInt (tI x)) with false by reflexivity. replace (is KStr (tI x)) with false by reflexivity.
+      replace (is KIdent (tI x)) with true by reflexivity. replace (tx (tI x)) with x by reflexivity.
+      assert (Hpc : peek_is KComma (pr_ssegs segs ++ r) = false /\ peek_is KSub (pr_ssegs segs ++ r) = false).
+      { destruct segs as [|[a b] segs']; [cbn [pr_ssegs flat_map app]; auto|]. split; reflexivity. }
+      destruct Hpc as [H1 H2]. rewrite H1, H2.
+      rewrite ssegs_ok; auto. cbn [List.length] in *. lia.
+    + destruct segs as [|[a b] segs']; [discriminate|].
+      set (S := (a, b) :: segs') in *.
+      assert (Hh : exists q, pr_ssegs S ++ r = tP KQuo "/" :: q).
+      { subst S. unfold pr_ssegs. cbn [flat_map app fst]. eexists; reflexivity. }
+      destruct Hh as (q & E). rewrite E.
+      replace (is KQuo (tP KQuo "/")) with true by reflexivity. rewrite <- E.
+      rewrite ssegs_ok; auto. cbn [List.length] in *. lia.
+Qed.
+
+(* ---------------------------------------------------------------- statements *)
+
+Lemma pr_item_next : forall i r, item_next (pr_item i ++ r).
+Proof.
+  intros [[[s|l]|] h ro] r; unfold pr_item; cbn [i_doc app]; eexists; auto.
+Qed.
+
+Lemma service_tail_ok : forall srv n (a : bool) its rest fuel,
+  forallb wf_item its = true ->
+  let toks := [tIn "service"; tI n] ++ (if a then [tP KSub "-"; tI "api"] else []) ++ [tP KLBrace "{"] ++
+              flat_map pr_item its ++ [tPn KRBrace "}"] in
+  len (toks ++ rest) < fuel ->
+  p_service_tail fuel srv (toks ++ rest) = Some (SService srv n a its, rest).
+Proof.
+  intros srv n a its rest fuel Hwf toks Hlen. subst toks. rewrite <- !app_assoc in *. cbn [app] in *.
+  unfold p_service_tail.
+  replace (is_text "service" (tIn "service")) with true by reflexivity.
+  replace (is KIdent (tI n)) with true by reflexivity. replace (tx (tI n)) with n by reflexivity.
+  cbn [andb].
+  assert (Hitems : forall f, len (flat_map pr_item its ++ tPn KRBrace "}" :: rest) < f ->
+            many f stop_rbrace follow_item (p_item fuel) (flat_map pr_item its ++ tPn KRBrace "}" :: rest)
+            = Some (its, tPn KRBrace "}" :: rest)).
+  { intros f Hf.
+    apply (many_ok (p_item fuel) pr_item stop_rbrace follow_item item_next its (tPn KRBrace "}" :: rest)
+             (len (flat_map pr_item its ++ tPn KRBrace "}" :: rest))); auto.
+    - intros i r Hin Hr HN. rewrite forallb_forall in Hwf.
+      destruct (item_next_facts r Hr) as (_ & _ & _ & _ & _ & _ & Hfo & _).
+      split; [destruct i as [[[s|l]|] h ro]; discriminate|].
+      split; [destruct i as [[[s|l]|] h ro]; reflexivity|].
+      split; [|exact Hfo].
+      apply item_ok; auto. destruct a; cbn [app List.length] in Hlen; lia.
+    - intros i r _. apply pr_item_next.
+    - eexists; auto. }
+  destruct a; cbn [app] in *.
+  - replace (is KSub (tP KSub "-")) with true by reflexivity.
+    replace (is_text "api" (tI "api")) with true by reflexivity.
+    cbn [expect]. replace (is KLBrace (tP KLBrace "{")) with true by reflexivity.
+    rewrite Hitems; [reflexivity|]. cbn [List.length] in *. lia.
+  - replace (is KSub (tP KLBrace "{")) with false by reflexivity.
+    destruct (flat_map pr_item its ++ tPn KRBrace "}" :: rest) as [|t0 q0] eqn:E.
+    { destruct (flat_map pr_item its); discriminate. }
+    rewrite <- E in *. cbn [expect]. replace (is KLBrace (tP KLBrace "{")) with true by reflexivity.
+    rewrite Hitems; [reflexivity|]. cbn [List.length] in *. lia.
+Qed.
+
+Lemma map_as_flat_map : forall (l : list string),
+  map (tPn KStr) l = flat_map (fun v => [tPn KStr v]) l.
+Proof. induction l as [|x l IH]; [reflexivity|]. cbn [map flat_map app]. rewrite IH. reflexivity. Qed.
+
+Lemma pr_texpr_head : forall e, exists q, pr_texpr e = tI (fst (fst e)) :: q.
+Proof. intros [[n a] d]. unfold pr_texpr. eexists; reflexivity. Qed.
+
+Definition texpr_next (r : list token) : Prop :=
+  exists t q, r = t :: q /\ (tk t = KIdent \/ tk t = KRParen).
+
+Lemma stmt_ok : forall s rest fuel, wf_stmt s = true ->
+  len (pr_stmt s ++ rest) < fuel -> p_stmt fuel (pr_stmt s ++ rest) = Some (s, rest).
+Proof.
+  intros s rest fuel Hwf Hlen. destruct s as [v|l|v|l|e|l|srv n a its]; cbn [pr_stmt] in *.
+  - reflexivity.
+  - (* info *)
+    rewrite <- !app_assoc in *. cbn [app] in *. unfold p_stmt.
+    replace (is KAtServer (tIn "info")) with false by reflexivity.
+    replace (is KIdent (tIn "info")) with true by reflexivity.
+    replace (is_text "syntax" (tIn "info")) with false by reflexivity.
+    replace (is_text "info" (tIn "info")) with true by reflexivity.
+    rewrite p_kvgroup_ok; [reflexivity|]. cbn [List.length] in *. lia.
+  - reflexivity.
+  - (* import group *)
+    rewrite <- !app_assoc in *. cbn [app] in *. unfold p_stmt.
+    replace (is KAtServer (tIn "import")) with false by reflexivity.
+    replace (is KIdent (tIn "import")) with true by reflexivity.
+    replace (is_text "syntax" (tIn "import")) with false by reflexivity.
+    replace (is_text "info" (tIn "import")) with false by reflexivity.
+    replace (is_text "service" (tIn "import")) with false by reflexivity.
+    replace (is_text "type" (tIn "import")) with false by reflexivity.
+    replace (is_text "import" (tIn "import")) with true by reflexivity.
+    replace (peek_is KLParen (tP KLParen "(" :: _)) with true by reflexivity.
+    rewrite map_as_flat_map in *.
+    rewrite (many_ok (expect KStr) (fun v => [tPn KStr v]) stop_rparen follow_import
+               (fun r => follow_import r = true) l (tPn KRParen ")" :: rest)
+               (len (flat_map (fun v => [tPn KStr v]) l ++ tPn KRParen ")" :: rest))); auto.
+    + intros v r _ Hr _. repeat split; auto. discriminate.
+    + cbn [List.length] in *. lia.
+  - (* type *)
+    cbn [app] in *. unfold p_stmt.
+    replace (is KAtServer (tIn "type")) with false by reflexivity.
+    replace (is KIdent (tIn "type")) with true by reflexivity.
+    replace (is_text "syntax" (tIn "type")) with false by reflexivity.
+    replace (is_text "info" (tIn "type")) with false by reflexivity.
+    replace (is_text "service" (tIn "type")) with false by reflexivity.
+    replace (is_text "type" (tIn "type")) with true by reflexivity.
+    destruct (pr_texpr_head e) as (q & E).
+    assert (E1 : pr_texpr e ++ rest = tI (fst (fst e)) :: q ++ rest) by (rewrite E; reflexivity).
+    rewrite E1.
+    replace (peek_is KLParen (tI (fst (fst e)) :: q ++ rest)) with false by reflexivity.
+    replace (peek_is KIdent (tI (fst (fst e)) :: q ++ rest)) with true by reflexivity.
+    rewrite <- E1. cbn [wf_stmt] in Hwf. rewrite texpr_ok; auto. cbn [List.length] in *. lia.
+  - (* type group *)
+    rewrite <- !app_assoc in *. cbn [app] in *. unfold p_stmt.
+    replace (is KAtServer (tIn "type")) with false by reflexivity.
+    replace (is KIdent (tIn "type")) with true by reflexivity.
+    replace (is_text "syntax" (tIn "type")) with false by reflexivity.
+    replace (is_text "info" (tIn "type")) with false by reflexivity.
+    replace (is_text "service" (tIn "type")) with false by reflexivity.
+    replace (is_text "type" (tIn "type")) with true by reflexivity.
+    replace (peek_is KLParen (tP KLParen "(" :: _)) with true by reflexivity.
+    cbn [wf_stmt] in Hwf.
+    set (pe := fun e => first_nl (pr_texpr e)) in *.
+    assert (Hpe : forall e, exists q, pe e = tIn (fst (fst e)) :: q /\ len (pe e) = len (pr_texpr e)).
+    { intros e. destruct (pr_texpr_head e) as (q & E). subst pe. cbn beta. rewrite E.
+      eexists; split; reflexivity. }
+    assert (Hnext : forall e r, texpr_next (pe e ++ r)).
+    { intros e r. destruct (Hpe e) as (q & E & _). rewrite E. eexists; eexists; split; [reflexivity|]. auto. }
+    assert (Hpk : peek_in [KIdent; KRParen] (flat_map pe l ++ tPn KRParen ")" :: rest) = true).
+    { destruct l as [|e l']; [reflexivity|]. cbn [flat_map]. rewrite <- app_assoc.
+      destruct (Hpe e) as (q & E & _). rewrite E. reflexivity. }
+    rewrite Hpk.
+    rewrite (many_ok (p_texpr fuel) pe stop_rparen follow_texpr texpr_next l (tPn KRParen ")" :: rest)
+               (len (flat_map pe l ++ tPn KRParen ")" :: rest))); auto.
+    + intros e r Hin Hr HN. destruct (Hpe e) as (q & E & El).
+      split; [rewrite E; discriminate|]. split; [rewrite E; reflexivity|].
+      split.
+      * (* the parser does not look at the line bit of the name *)
+        assert (Hsame : forall X, p_texpr fuel (pe e ++ X) = p_texpr fuel (pr_texpr e ++ X)).
+        { intros X. destruct (pr_texpr_head e) as (q' & E'). subst pe. cbn beta. rewrite E'. reflexivity. }
+        rewrite Hsame. rewrite forallb_forall in Hwf. apply texpr_ok; auto.
+        rewrite app_length in *. rewrite <- El. cbn [List.length] in *. lia.
+      * destruct Hr as (t & q' & -> & Hk). unfold follow_texpr, peek_in, peek_is, is. cbn [existsb].
+        destruct Hk as [K|K]; rewrite K; reflexivity.
+    + eexists; eexists; split; [reflexivity|]. auto.
+    + cbn [List.length] in *. lia.
+  - (* service *)
+    cbn [wf_stmt] in Hwf. apply andb_true_iff in Hwf as [Hsrv Hits].
+    destruct srv as [l|].
+    + rewrite <- !app_assoc in *. cbn [app] in *. unfold p_stmt.
+      replace (is KAtServer (tPn KAtServer "@server")) with true by reflexivity.
+      cbn [expect]. replace (is KLParen (tP KLParen "(")) with true by reflexivity.
+      set (TL := tIn "service" :: tI n :: (if a then [tP KSub "-"; tI "api"] else []) ++
+                  tP KLBrace "{" :: flat_map pr_item its ++ tPn KRBrace "}" :: rest) in *.
+      rewrite (many_ok (p_skv fuel) pr_skv stop_rparen follow_kv kv_next l (tPn KRParen ")" :: TL)
+                 (len (flat_map pr_skv l ++ tPn KRParen ")" :: TL))); auto.
+      * cbn [expect]. replace (is KRParen (tPn KRParen ")")) with true by reflexivity.
+        pose proof (service_tail_ok (Some l) n a its rest fuel Hits) as H. cbn zeta in H.
+        rewrite <- ?app_assoc in H. cbn [app] in H. rewrite <- ?app_assoc in H. cbn [app] in H.
+        apply H. subst TL. clear H. lenlia.
+      * intros [k v] r Hin Hr HN. rewrite forallb_forall in Hsrv. specialize (Hsrv _ Hin).
+        destruct (kv_next_facts r Hr) as (Hfo & _).
+        split; [discriminate|]. split; [reflexivity|]. split; [|exact Hfo].
+        apply skv_ok; auto. cbn [List.length] in *. lia.
+      * intros [k v] r _. eexists; eexists; split; [reflexivity|]. auto.
+      * eexists; eexists; split; [reflexivity|]. auto.
+      * cbn [List.length] in *. lia.
+    + cbn [app] in *. unfold p_stmt.
+      replace (is KAtServer (tIn "service")) with false by reflexivity.
+      replace (is KIdent (tIn "service")) with true by reflexivity.
+      replace (is_text "syntax" (tIn "service")) with false by reflexivity.
+      replace (is_text "info" (tIn "service")) with false by reflexivity.
+      replace (is_text "service" (tIn "service")) with true by reflexivity.
+      pose proof (service_tail_ok None n a its rest fuel Hits) as H. cbn zeta in H.
+      cbn [app] in H. apply H. exact Hlen.
+Qed.
+
+(* ---------------------------------------------------------------- whole programs *)
+
+Lemma pr_stmt_nonempty : forall s, exists t q, pr_stmt s = t :: q.
+Proof.
+  intros [v|l|v|l|e|l|[l|] n a its]; cbn [pr_stmt app]; eexists; eexists; reflexivity.
+Qed.
+
+Lemma stmts_ok : forall a fuel gas, wf a = true ->
+  len (print a) < fuel -> len (print a) < gas -> p_stmts fuel gas (print a) = Some a.
+Proof.
+  induction a as [|s a IH]; intros fuel gas Hwf Hf Hg.
+  - destruct gas as [|g]; [cbn in Hg; lia|]. reflexivity.
+  - unfold print in *. cbn [flat_map] in *. fold (print a) in *.
+    cbn [wf forallb] in Hwf. apply andb_true_iff in Hwf as [Hs Ha].
+    destruct gas as [|g]; [lia|]. cbn [p_stmts].
+    destruct (pr_stmt_nonempty s) as (t & q & E).
+    destruct (pr_stmt s ++ print a) as [|t' q'] eqn:E'.
+    { rewrite E in E'. discriminate. }
+    rewrite <- E' in *. clear E'. rewrite stmt_ok; auto.
+    rewrite IH; auto.
+    + rewrite app_length in Hf. lia.
+    + rewrite app_length in Hg. rewrite E in Hg. cbn [List.length] in Hg. lia.
+Qed.
+
+Lemma parse_print : forall a, wf a = true -> parse (print a) = Some a.
+Proof. intros a H. unfold parse. apply stmts_ok; auto. Qed.
+
+(* ---------------------------------------------------------------- normalisation *)
+
+Lemma forallb_flat_map : forall {A B} (f : B -> bool) (g : A -> list B) l,
+  forallb f (flat_map g l) = forallb (fun x => forallb f (g x)) l.
+Proof.
+  induction l as [|x l IH]; [reflexivity|]. cbn [flat_map forallb]. rewrite forallb_app, IH. reflexivity.
+Qed.
+
+Lemma wf_norm_item : forall i, wf_item (norm_item i) = wf_item i.
+Proof. intros [d h [m p rq rs]]. reflexivity. Qed.
+
+Lemma wf_norm_stmt : forall s, wf_stmt s = true -> forallb wf_stmt (norm_stmt s) = true.
+Proof.
+  intros [v|l|v|l|e|l|srv n a its] H; cbn [norm_stmt].
+  - reflexivity.
+  - destruct (kvs_all_zero l); reflexivity.
+  - destruct (zero_text v); reflexivity.
+  - destruct (forallb zero_text l); reflexivity.
+  - cbn [forallb]. rewrite H. reflexivity.
+  - destruct l; [reflexivity|]. cbn [forallb]. rewrite H. reflexivity.
+  - cbn [forallb wf_stmt] in *. apply andb_true_iff in H as [Hs Hi]. rewrite andb_true_r.
+    apply andb_true_iff. split.
+    + destruct srv as [l|]; [|reflexivity].
+      destruct (forallb (fun e : skv => sval_zero (snd e)) l); [reflexivity|exact Hs].
+    + rewrite forallb_forall in *. intros i Hin. apply in_map_iff in Hin as (i0 & <- & Hin).
+      rewrite wf_norm_item. auto.
+Qed.
+
+Lemma norm_wf : forall a, wf a = true -> wf (norm a) = true.
+Proof.
+  intros a H. unfold wf, norm in *. rewrite forallb_flat_map.
+  rewrite forallb_forall in *. intros s Hin. apply wf_norm_stmt. auto.
+Qed.
+
+Lemma norm_item_idem : forall i, norm_item (norm_item i) = norm_item i.
+Proof.
+  intros [d h [m p rq rs]]. unfold norm_item, norm_route. cbn [i_doc i_handler i_route r_method r_path r_req r_resp].
+  f_equal.
+  - destruct d as [[s|l]|]; cbn [norm_doc]; try reflexivity.
+    + destruct (zero_text s) eqn:E; cbn [norm_doc]; [reflexivity|rewrite E; reflexivity].
+    + destruct (kvs_all_zero l) eqn:E; cbn [norm_doc]; [reflexivity|rewrite E; reflexivity].
+  - f_equal; [destruct rq as [[x|]|]|destruct rs as [[x|]|]]; reflexivity.
+Qed.
+
+Lemma norm_stmt_idem : forall s, flat_map norm_stmt (norm_stmt s) = norm_stmt s.
+Proof.
+  intros [v|l|v|l|e|l|srv n a its]; cbn [norm_stmt].
+  - reflexivity.
+  - destruct (kvs_all_zero l) eqn:E; cbn [flat_map norm_stmt app]; [reflexivity|rewrite E; reflexivity].
+  - destruct (zero_text v) eqn:E; cbn [flat_map norm_stmt app]; [reflexivity|rewrite E; reflexivity].
+  - destruct (forallb zero_text l) eqn:E; cbn [flat_map norm_stmt app]; [reflexivity|rewrite E; reflexivity].
+  - reflexivity.
+  - destruct l; reflexivity.
+  - cbn [flat_map norm_stmt app]. f_equal. f_equal.
+    + destruct srv as [l|]; [|reflexivity].
+      destruct (forallb (fun e : skv => sval_zero (snd e)) l) eqn:E; [reflexivity|rewrite E; reflexivity].
+    + rewrite map_map. apply map_ext. apply norm_item_idem.
+Qed.
+
+Lemma norm_idem : forall a, norm (norm a) = norm a.
+Proof.
+  induction a as [|s a IH]; [reflexivity|].
+  unfold norm in *. cbn [flat_map]. rewrite flat_map_app, IH, norm_stmt_idem. reflexivity.
+Qed.
+
+(* ---------------------------------------------------------------- the model formatter *)
+
+Lemma fmt_idempotent : forall ts a, parse ts = Some a -> wf a = true ->
+  fmt ts = Some (print (norm a)) /\ fmt (print (norm a)) = Some (print (norm a)).
+Proof.
+  intros ts a Hp Hwf. unfold fmt. rewrite Hp. split; [reflexivity|].
+  rewrite parse_print by (apply norm_wf; exact Hwf). rewrite norm_idem. reflexivity.
+Qed.
+
+Lemma fmt_meaning : forall ts a, parse ts = Some a -> wf a = true ->
+  exists out, fmt ts = Some out /\ parse out = Some (norm a).
+Proof.
+  intros ts a Hp Hwf. exists (print (norm a)). unfold fmt. rewrite Hp. split; [reflexivity|].
+  apply parse_print. apply norm_wf. exact Hwf.
 Qed.
